@@ -1,25 +1,64 @@
 PROPERTY = 'C13'
+import itertools
 def thr(fn, n): return {fn: ['a', 'b', 'c'][:n]}
+PQ = '_ZN3tbb6detail2d125concurrent_priority_queueIiSt4lessIiENS1_23cache_aligned_allocatorIiEEE'
+# thread-mode units. ptratomics: atomic<T*> accesses keep their pointer type (cheaper, and avoids a cbmc mis-read, see NOTES);
+# fallthrough: cut back edges continue along the loop exit with the slice disabled (fewer state merges).
+# std::vector reallocation (_M_realloc_insert) is cut out of the threads: the queue is constructed with enough capacity.
+LCS = dict(mode='lcs', ptratomics=True, fallthrough=True)
 UNITS = {
-  'one2': dict(wrapper='w_cpq.cpp', mode='lcs', unroll=1, threads=thr('vp_thr_one', 2), cut=['_M_realloc_insert'], ptratomics=True, noinline=['6reheapEv','7heapifyEv'], allow_atomic=['_ZN3tbb6detail2d125concurrent_priority_queueIiSt4lessIiENS1_23cache_aligned_allocatorIiEEE6reheapEv','_ZN3tbb6detail2d125concurrent_priority_queueIiSt4lessIiENS1_23cache_aligned_allocatorIiEEE7heapifyEv']),
-  'one3': dict(wrapper='w_cpq.cpp', mode='lcs', unroll=3, threads=thr('vp_thr_one', 3), cut=['_M_realloc_insert'], fallthrough=True),
+  # full real code: push / try_pop -> aggregator -> handle_operations (reheap, heapify, vector push_back/pop_back inlined)
+  'one2':   dict(LCS, wrapper='w_cpq.cpp', unroll=1, threads=thr('vp_thr_one', 2), cut=['_M_realloc_insert']),
+  'one2k2': dict(LCS, wrapper='w_cpq.cpp', unroll=2, threads=thr('vp_thr_one', 2), cut=['_M_realloc_insert']),
+  'one3':   dict(LCS, wrapper='w_cpq.cpp', unroll=1, threads=thr('vp_thr_one', 3), cut=['_M_realloc_insert']),
+  # the combining protocol alone (real aggregator, minimal client handler)
+  'agg2':   dict(LCS, wrapper='w_agg.cpp', unroll=2, threads=thr('vp_thr_agg2', 2)),
+  'agg3':   dict(LCS, wrapper='w_agg.cpp', unroll=2, threads=thr('vp_thr_agg1', 3)),
+  'agg3x2': dict(LCS, wrapper='w_agg.cpp', unroll=2, threads=thr('vp_thr_agg2', 3)),
+  # sequential: one batch / one heap kernel from an arbitrary valid state
+  'batch':  dict(wrapper='w_batch.cpp', mode='seq', selftest=True, ptratomics=True),
 }
-UNITS['batch'] = dict(wrapper='w_batch.cpp', mode='seq', selftest=True, ptratomics=True)
-UNITS['agg2'] = dict(wrapper='w_agg.cpp', mode='lcs', unroll=2, threads=thr('vp_thr_agg2', 2), ptratomics=True, fallthrough=True)
-UNITS['agg3'] = dict(wrapper='w_agg.cpp', mode='lcs', unroll=3, threads=thr('vp_thr_agg1', 3), ptratomics=True, fallthrough=True)
-UNITS['agg3x2'] = dict(wrapper='w_agg.cpp', mode='lcs', unroll=2, threads=thr('vp_thr_agg2', 3), ptratomics=True, fallthrough=True)
+def batches(kinds, maxlen):
+    out = []
+    for n in range(1, maxlen + 1):
+        for c in itertools.product(kinds, repeat=n):
+            c = list(c) + [0] * (3 - n)
+            out.append({'B0': c[0], 'B1': c[1], 'B2': c[2]})
+    return out
+def with_nh(scs, nhs): return [dict(s, NH=nh) for s in scs for nh in nhs]
+SEQ_CBMC = ['--unwind', '6', '--object-bits', '10']
+LCS_CBMC = ['--unwind', '8', '--object-bits', '10']
 HARNESSES = [
-  dict(name='agg_2t', unit='agg2', harness='h_agg.c', defines={'NT': 2, 'NOPS': 2, 'ROUNDS': 3}, scenarios=[{}], timeout=600, cbmc=['--unwind', '8'], desc='', bounds={}),
-  dict(name='agg_3t', unit='agg3', harness='h_agg.c', defines={'NT': 3, 'NOPS': 1, 'ROUNDS': 3}, scenarios=[{}], timeout=600, cbmc=['--unwind', '8'], desc='', bounds={}),
-  dict(name='agg_3t2', unit='agg3x2', harness='h_agg.c', defines={'NT': 3, 'NOPS': 2, 'ROUNDS': 3}, scenarios=[{}], timeout=900, cbmc=['--unwind', '8'], desc='', bounds={}),
-  dict(name='batch_step', unit='batch', harness='h_batch.c', defines={'PART': 1},
-       scenarios=[{'NH': 2, 'B0': 2, 'B1': 1, 'B2': 2}], timeout=300, cbmc=['--unwind', '6', '--object-bits', '10'],
-       desc='', bounds={}),
-  dict(name='heap_kernels', unit='batch', harness='h_batch.c', defines={'NMAX': 6},
-       scenarios=[{'PART': 2}, {'PART': 3}], timeout=300, cbmc=['--unwind', '6', '--object-bits', '10'],
-       desc='', bounds={}),
-  dict(name='lin_2t', unit='one2', harness='h_cpq.c', defines={'NT': 2, 'ROUNDS': 3},
-       scenarios=[{'K0': 0, 'K1': 1, 'N0': 1}], timeout=600, cbmc=['--unwind', '20', '--object-bits', '12'],
-       desc='2 threads', bounds={}),
+  dict(name='batch_step', unit='batch', harness='h_batch.c', defines={'PART': 1}, cbmc=SEQ_CBMC, timeout=600,
+       scenarios_quick=with_nh(batches([1, 2], 3), [3]) + with_nh(batches([1, 2], 2), [0, 1]),
+       scenarios_thorough=with_nh(batches([1, 2], 3), [0, 1, 2, 3, 4]) + with_nh([b for b in batches([1, 2, 3], 3) if 3 in b.values()], [2]),
+       desc='handle_operations on one batch of <=3 real cpq_operation objects (kinds concrete per query, priorities symbolic over all int) from any heapified state of NH elements: statuses set, results explained by some sequential order, contents conserved, heap invariant and mark==size==my_size re-established',
+       bounds={'batch': '<=3 operations, every push/pop pattern', 'heap elements before the batch': 'quick 0,1,3 / thorough 0..4', 'priorities': 'all int values'}),
+  dict(name='heap_kernels', unit='batch', harness='h_batch.c', cbmc=['--unwind', '7', '--object-bits', '10'], timeout=900,
+       scenarios_quick=[{'PART': 2, 'NMAX': 4}, {'PART': 3, 'NMAX': 5}], scenarios_thorough=[{'PART': 2, 'NMAX': 6}, {'PART': 3, 'NMAX': 7}],
+       desc='heapify() / reheap() from any state with n<=NMAX elements, symbolic mark, [0,mark) a heap, arbitrary tail: result is a heap, mark correct, contents conserved, tail untouched',
+       bounds={'elements': 'quick <=4 (heapify) / <=5 (reheap), thorough <=6 / <=7', 'mark': 'any 0..n', 'priorities': 'all int values'}),
+  dict(name='agg_2t', unit='agg2', harness='h_agg.c', defines={'NT': 2, 'NOPS': 2, 'ROUNDS': 2}, scenarios=[{}], timeout=900, cbmc=LCS_CBMC,
+       thorough_override={'defines': {'NT': 2, 'NOPS': 2, 'ROUNDS': 3}, 'timeout': 2400},
+       desc='real aggregator::execute/start_handle_operations, 2 threads x 2 operations, client handler: handler invocations exclusive, every operation handled exactly once before its execute() returns, result visible, no lost operation (blocked-state oracle), aggregator idle at the end',
+       bounds={'threads': 2, 'ops_per_thread': 2, 'free_rounds': '2 quick / 3 thorough', 'forced_rounds': 2, 'loop_unroll': 2}),
+  dict(name='agg_3t', unit='agg3', harness='h_agg.c', defines={'NT': 3, 'NOPS': 1, 'ROUNDS': 2}, scenarios=[{}], timeout=900, cbmc=LCS_CBMC,
+       thorough_override={'defines': {'NT': 3, 'NOPS': 1, 'ROUNDS': 3}, 'timeout': 2400},
+       desc='same, 3 threads x 1 operation (a waiting next handler plus a waiter behind it)',
+       bounds={'threads': 3, 'ops_per_thread': 1, 'free_rounds': '2 quick / 3 thorough', 'forced_rounds': 2, 'loop_unroll': 2}),
+  dict(name='agg_3t2', unit='agg3x2', harness='h_agg.c', defines={'NT': 3, 'NOPS': 2, 'ROUNDS': 2}, scenarios=[{}], timeout=3000, cbmc=LCS_CBMC, tiers=['thorough'],
+       desc='same, 3 threads x 2 operations', bounds={'threads': 3, 'ops_per_thread': 2, 'free_rounds': 2, 'forced_rounds': 2, 'loop_unroll': 2}),
+  dict(name='lin_2t', unit='one2', harness='h_cpq.c', defines={'NT': 2, 'ROUNDS': 1}, timeout=900, cbmc=LCS_CBMC,
+       scenarios=[{'K0': 0, 'K1': 1, 'N0': 1}, {'K0': 1, 'K1': 0, 'N0': 2}, {'K0': 1, 'K1': 1, 'N0': 1}, {'K0': 0, 'K1': 0, 'N0': 0}],
+       desc='full real code, 2 threads x 1 operation (K: 0 push(p), 1 try_pop) on a queue holding N0 elements; priorities symbolic in {0,1,2}; oracles: no lost operation (blocked-state), history linearizable as a priority queue, final contents = initial + pushed - popped, heap invariant, mark==size==my_size, aggregator idle',
+       bounds={'threads': 2, 'ops_per_thread': 1, 'free_rounds': 1, 'forced_rounds': 2, 'loop_unroll': 1, 'priorities': '3 values', 'initial elements': '0..2'}),
+  dict(name='lin_2t_deep', unit='one2k2', harness='h_cpq.c', timeout=3000, cbmc=LCS_CBMC, tiers=['thorough'], mem_gb=16,
+       scenarios=[dict(K0=a, K1=b, N0=n, ROUNDS=r, **q) for (a, b) in [(0, 1), (1, 0), (1, 1), (0, 0)] for n in (0, 1, 2) for (r, q) in [(2, {}), (3, {'NOQUIESCE': None})]],
+       defines={'NT': 2},
+       desc='as lin_2t with loops unrolled twice (a batch of two is handled without losing a round) and more schedules: 2 free + 2 forced rounds with the blocked-state oracle, and 3 free rounds (safety oracles only)',
+       bounds={'threads': 2, 'ops_per_thread': 1, 'free_rounds': '2 (+2 forced) | 3 (no forced)', 'loop_unroll': 2, 'priorities': '3 values', 'initial elements': '0..2'}),
+  dict(name='lin_3t', unit='one3', harness='h_cpq.c', defines={'NT': 3, 'ROUNDS': 1}, timeout=3000, cbmc=LCS_CBMC, tiers=['thorough'], mem_gb=16,
+       scenarios=[{'K0': 0, 'K1': 1, 'K2': 1, 'N0': 1}, {'K0': 1, 'K1': 0, 'K2': 0, 'N0': 1}, {'K0': 0, 'K1': 0, 'K2': 1, 'N0': 0}, {'K0': 1, 'K1': 1, 'K2': 1, 'N0': 2}],
+       desc='full real code, 3 threads x 1 operation', bounds={'threads': 3, 'ops_per_thread': 1, 'free_rounds': 1, 'forced_rounds': 2, 'loop_unroll': 1, 'priorities': '3 values'}),
 ]
 OUTSIDE = []; STUBS = []; ASSUMPTIONS = []
